@@ -836,7 +836,7 @@ class Interp:
       if isinstance(base, DictObj):
         self.dict_store(base, key, v, st, node)
       else:
-        st.events.append(('obj-store', as_sym(base), as_sym(key), node))
+        st.events.append(('obj-store', as_sym(base), as_sym(key), node, v))
     elif isinstance(t, ast.Attribute):
       st.events.append(('attr-store', node))
     else:
